@@ -783,7 +783,9 @@ class Engine:
                 return False        # the path goes on: later labels are still checked
             self.proved[label] = self.proved.get(label, 0) + 1
             return True
+        self._dump(cond, label)
         r = self._check(z3.Not(cond))
+        self._dump_result(r)
         ok = True
         if r == "sat":
             self._violation(label, self.solver.model())
@@ -796,6 +798,27 @@ class Engine:
         if not ok and self._check() != "sat":
             raise PathEnd()
         return ok
+
+    # ---- second-solver cross-check: dump assertion queries as SMT-LIB2 (from the original terms, before solving)
+    dump_dir, dump_cap, _dumped, _last_dump = None, 25, 0, None
+
+    def _dump(self, cond, label):
+        self._last_dump = None
+        if not self.dump_dir or self._dumped >= self.dump_cap:
+            return
+        s2 = z3.Solver()
+        s2.add(self.solver.assertions())
+        s2.add(z3.Not(cond))
+        path = _os.path.join(self.dump_dir, f"{_os.getpid()}-{self.n_paths}-{self._dumped}.smt2")
+        with open(path, "w") as f:
+            f.write(f"; label {label}\n(set-logic ALL)\n" + s2.to_smt2())
+        self._dumped += 1
+        self._last_dump = path
+
+    def _dump_result(self, r):
+        if self._last_dump:
+            with open(self._last_dump + ".expect", "w") as f:
+                f.write(r)
 
     # ---- shims (installed per path by the harness, removed for concrete witness replays)
     def patch(self, obj, name, value):
@@ -957,12 +980,16 @@ class SBV:
         raise Unsupported(f"SBV operand {type(x)} {x!r}"[:80])
 
     def __add__(s, o):
-        CUR.bv_obligations.append(z3.BVAddNoOverflow(s.t, SBV.lift(o), False))
-        return SBV(s.t + SBV.lift(o))
+        r = s.t + SBV.lift(o)
+        CUR.bv_obligations.append(z3.UGE(r, s.t))                       # no wrap-around (portable SMT-LIB)
+        return SBV(r)
     __radd__ = __add__
 
     def __mul__(s, o):
-        CUR.bv_obligations.append(z3.BVMulNoOverflow(s.t, SBV.lift(o), False))
+        if isinstance(o, int) and o > 0:                                   # constant factor: exact bound, portable SMT-LIB
+            CUR.bv_obligations.append(z3.ULE(s.t, z3.BitVecVal(((1 << WIDE) - 1) // o, WIDE)))
+        elif not (isinstance(o, int) and o == 0):
+            CUR.bv_obligations.append(z3.BVMulNoOverflow(s.t, SBV.lift(o), False))
         return SBV(s.t * SBV.lift(o))
     __rmul__ = __mul__
 
